@@ -21,7 +21,12 @@ axiom("height_child", {"y": "Scope", "k": "Int"}, "implies(0 <= k and k < len(ch
 axiom("desc_height", {"x": "Scope", "r": "Scope"}, "implies(desc(x, r) and x != r, height(x) < height(r))", patterns=["desc(x, r)"],
       note="what is strictly nested is strictly lower (consequence of height_child along the nesting path; stated, not derived)")
 contract("Scope.get_scopes", abstract=True, pure=True, heap_independent=True, params={"self": "Scope"}, returns="Seq[Scope]", ensures=["result == children(self)"])
-contract("Scope.in_region", abstract=True, pure=True, heap_independent=True, params={"self": "Scope", "offset": "Int"}, returns="Bool", ensures=["result == inreg(self, offset)"])
+specfun("region_of", ["Scope"], "Tuple[Int,Int]", note="scope.get_region(): (start, end) offsets of the scope's node")
+contract("Scope.get_region", abstract=True, pure=True, heap_independent=True, params={"self": "Scope"}, returns="Tuple[Int,Int]", ensures=["result == region_of(self)"])
+axiom("inreg_def", {"s": "Scope", "o": "Int"}, "inreg(s, o) == (region_of(s)[0] < o and o < region_of(s)[1])", patterns=["inreg(s, o)"],
+      note="definition: Scope.in_region (verified below against this)")
+contract("Scope.in_region", source=S + "Scope.in_region", params={"self": "Scope", "offset": "Int"}, returns="Bool", modifies=[], raises={},
+         ensures=["result == inreg(self, offset)"], note="strictly inside the scope's region")
 contract("_HoldingScopeFinder.get_holding_scope_for_offset", source=S + "_HoldingScopeFinder.get_holding_scope_for_offset",
          params={"scope": "Scope", "offset": "Int"}, returns="Scope", modifies=[], raises={},
          ensures=[
